@@ -48,8 +48,10 @@ Next ==
           /\ hz' = hz \cup (IF e.op = "LocalLoss" /\ e.res = "ok" THEN {"S2"} ELSE {})
           /\ snapSeen' = (snapSeen \/ HasSnap(Log[l]))
           /\ maxR' = IF Log[l].rpos > maxR THEN Log[l].rpos ELSE maxR
-          /\ stopped' = (stopped \/ (e.op = "DaemonStop" /\ e.res = "ok"))
-          /\ flushed' = (flushed \/ (e.op = "DaemonStop" /\ e.ack))
+          \* (a later DaemonStart = a restart of the process with a new DB object: the flags describe the current down time only)
+          /\ stopped' = IF e.op = "DaemonStart" /\ e.res = "ok" THEN FALSE ELSE (stopped \/ (e.op = "DaemonStop" /\ e.res = "ok"))
+          /\ flushed' = IF e.op \in {"DaemonStart"} \/ (stopped /\ e.op \notin {"Validate", "AuditNow", "RestoreCheck", "Sleep"})
+                           THEN FALSE ELSE (flushed \/ (e.op = "DaemonStop" /\ e.ack))
 Spec == Init /\ [][Next]_vars
 
 \* the ledger: every application-visible content the application has committed so far (the application is single-threaded
